@@ -21,13 +21,14 @@ type clientSpec struct {
 }
 
 type client struct {
-	spec     clientSpec
-	tk       *Task
-	acq      *OpRec
-	granted  bool
-	returned bool
-	canceled atomic.Bool
-	cancelT  int64
+	spec       clientSpec
+	tk         *Task
+	acq        *OpRec
+	granted    bool
+	returned   bool
+	canceled   atomic.Bool
+	cancelT    int64
+	cancelStep int // scheduler step at which the cancellation happened (-1: before the task started)
 }
 
 type relSpec struct {
@@ -201,6 +202,7 @@ func (sc *scen) start() {
 		cl.tk = s.Go("client", func(tk *Task) {
 			if cl.spec.preCancel {
 				tk.Cancel()
+				cl.cancelStep = -1
 				cl.canceled.Store(true)
 			}
 			tk.Sleep(cl.spec.arrive)
@@ -242,6 +244,7 @@ func (sc *scen) start() {
 					return
 				}
 				cl.cancelT = s.Now()
+				cl.cancelStep = s.Step
 				cl.canceled.Store(true)
 				sc.r.Fault("F-cancel")
 				cl.tk.Cancel()
@@ -371,7 +374,10 @@ func (sc *scen) afterDrain() {
 	for i := 0; i < sc.cfg.Limit; i++ {
 		var l core.Listener
 		var ok bool
-		if !RootCall(func() { l, ok = probe.Acquire(st.PartCtx(bg, partFor(st, i))) }) {
+		pctx, pcancel := context.WithTimeout(bg, 50*time.Millisecond) // a blocking kind that lost capacity must not hang the driving goroutine
+		okCall := RootCall(func() { l, ok = probe.Acquire(st.PartCtx(pctx, partFor(st, i))) })
+		pcancel()
+		if !okCall {
 			return
 		}
 		if !ok {
